@@ -45,7 +45,7 @@ func bigTrees(n uint64, h uint) []bigTree {
 
 func c16Plan(tier string) []core.Suite {
 	if tier == "thorough" {
-		return []core.Suite{{Name: "small", N: 9, Exhaustive: true, CaseTimeout: 900}, {Name: "proofpos", N: 13, Exhaustive: true, CaseTimeout: 900}, {Name: "large", N: 64 * 400}}
+		return []core.Suite{{Name: "small", N: 9, Exhaustive: true, CaseTimeout: 900}, {Name: "proofpos", N: 13, Exhaustive: true, CaseTimeout: 900}, {Name: "large", N: 64 * 4000}}
 	}
 	return []core.Suite{{Name: "small", N: 7, Exhaustive: true}, {Name: "proofpos", N: 9, Exhaustive: true}, {Name: "large", N: 64 * 40}}
 }
